@@ -10,6 +10,7 @@ import (
 	"go/token"
 	"go/types"
 	"math"
+	"sort"
 	"strings"
 
 	"golang.org/x/tools/go/ssa"
@@ -41,9 +42,93 @@ func countCalls(cis []ssa.CallInstruction, name string) int {
 	return n
 }
 
+// readerFlagSuffix: for the two decoder flags, the place (relative to the iterator)
+// under which (*PostingsList).iterator creates the decoder: ".includeLocs" today,
+// ".details.locs" after the flags were grouped.
+var readerFlagSuffix = map[string]string{}
+
+func (c *Ctx) deriveReaderFlags() {
+	readerFlagSuffix = map[string]string{}
+	it := c.byName["(*PostingsList).iterator"]
+	if it == nil || it.Blocks == nil {
+		return
+	}
+	creators := []*ssa.Function{it}
+	for _, sc := range staticCallees(it) {
+		if c.inRoot(sc) && sc.Blocks != nil && len(callsOf(sc, "newChunkedIntDecoder")) > 0 {
+			creators = append(creators, sc)
+		}
+	}
+	for flag, field := range map[string]string{"includeLocs": "locReader", "includeFreqNorm": "freqNormReader"} {
+		for _, cf := range creators {
+			for _, call := range callsOf(cf, "newChunkedIntDecoder") {
+				ex := tupleParts(call)[0]
+				if ex == nil || ex.Referrers() == nil {
+					continue
+				}
+				stores := false
+				var root ssa.Value
+				for _, ref := range *ex.Referrers() {
+					if st, isSt := ref.(*ssa.Store); isSt && strings.HasSuffix(exprSig(st.Addr, 0), "."+field) {
+						stores = true
+						if fa, ok := st.Addr.(*ssa.FieldAddr); ok {
+							root = fa.X
+							for {
+								inner, ok := root.(*ssa.FieldAddr)
+								if !ok {
+									break
+								}
+								root = inner.X
+							}
+						}
+					}
+				}
+				if !stores || root == nil {
+					continue
+				}
+				prefix := "*" + accessPath(root) + "."
+				// the closest dominating test of a place of the iterator
+				var best *edgePathFact
+				facts := edgePathFacts(cf)
+				for i := range facts {
+					f := &facts[i]
+					if !f.nonzero || !strings.HasPrefix(f.path, prefix) || strings.HasSuffix(f.path, "Reader") {
+						continue
+					}
+					if !(f.edge == call.Block() || f.edge.Dominates(call.Block())) {
+						continue
+					}
+					if best == nil || best.edge.Dominates(f.edge) {
+						best = f
+					}
+				}
+				if best != nil {
+					readerFlagSuffix[flag] = "." + best.path[len(prefix):]
+				}
+			}
+		}
+	}
+}
+
 // flagTrueDominates: block b is dominated by the true edge of a test of the
 // boolean field .flag of the receiver.
 func flagTrueDominates(fn *ssa.Function, flag string, b *ssa.BasicBlock) bool {
+	// the flag may have moved (into a by-value struct of the iterator) or be tested through a
+	// predicate: a path fact about the place under which the decoder is created
+	if suffix := readerFlagSuffix[flag]; suffix != "" {
+		for _, f := range edgePathFacts(fn) {
+			if !f.nonzero || !strings.HasPrefix(f.path, "*") || !strings.HasSuffix(f.path, suffix) {
+				continue
+			}
+			// "*<one root>" + suffix: the flag of an iterator (the receiver, or the one being set up)
+			if root := f.path[1 : len(f.path)-len(suffix)]; root == "" || strings.ContainsAny(root, ".*") {
+				continue
+			}
+			if f.edge == b || f.edge.Dominates(b) {
+				return true
+			}
+		}
+	}
 	for _, blk := range fn.Blocks {
 		ifi, ok := blk.Instrs[len(blk.Instrs)-1].(*ssa.If)
 		if !ok {
@@ -238,6 +323,7 @@ func init() {
 		Floor: 6,
 		Doc:   "writer and readers agree on the shape of one posting in the two integer streams: the freq/norm stream carries exactly two uvarints per posting (freq<<1|hasLocs, norm) — written by tfEncoder.Add, read by readFreqNormHasLocs (2 reads) and skipped by skipFreqNormReadHasLocs (1 read + 1 skip, hasLocs = value&1); the location stream carries a byte-count prefix then 4 uvarints per location — readLocation reads 4, nextAtOrAfter reads the prefix and loops until that many bytes are consumed, currChunkNext reads the prefix and skips exactly that many bytes",
 		Run: func(c *Ctx, scope string, r *Report) {
+			c.deriveReaderFlags()
 			// writers
 			// (the functions that feed the freq/norm encoder: those that build the freq word,
 			// and the two writers' term loops when they feed an encoder they call tfEncoder)
@@ -410,6 +496,7 @@ func init() {
 		Floor: 6,
 		Doc:   "the freq/norm and location decoders exist only when the iterator was created with the corresponding flags; every use of i.locReader is dominated by includeLocs and every use of i.freqNormReader by includeFreqNorm (or the function is only called from such guarded sites, transitively): no flag combination dereferences a missing decoder",
 		Run: func(c *Ctx, scope string, r *Report) {
+			c.deriveReaderFlags()
 			pi := c.NamedType("PostingsIterator").Obj()
 			readers := map[string]string{"locReader": "includeLocs", "freqNormReader": "includeFreqNorm"}
 			// requires[fn][field] = true if fn uses the reader without a local guard
@@ -1352,4 +1439,192 @@ func cleanFlagCoherent(c *Ctx, f *types.Var, atoms func(ssa.Value) (int, bool, b
 		}
 	}
 	return ""
+}
+
+// boolValueUnder evaluates a boolean SSA value under an assignment of atoms
+// (bool parameters and bool places, numbered on first sight): constants, !x,
+// and the value form of || / && (a phi fed by constant edges from the blocks
+// that decided early).
+func boolValueUnder(v ssa.Value, atoms map[string]int, asg uint, depth int) tri {
+	if depth > 8 {
+		return triUnknown
+	}
+	atom := func(key string) tri {
+		i, ok := atoms[key]
+		if !ok {
+			if len(atoms) >= 10 {
+				return triUnknown
+			}
+			i = len(atoms)
+			atoms[key] = i
+		}
+		if asg&(1<<uint(i)) != 0 {
+			return triTrue
+		}
+		return triFalse
+	}
+	switch x := v.(type) {
+	case *ssa.Const:
+		if x.Value != nil && x.Value.Kind() == constant.Bool {
+			if constant.BoolVal(x.Value) {
+				return triTrue
+			}
+			return triFalse
+		}
+	case *ssa.Parameter:
+		return atom("param:" + x.Name())
+	case *ssa.UnOp:
+		if x.Op == token.NOT {
+			return triNot(boolValueUnder(x.X, atoms, asg, depth+1))
+		}
+		if x.Op == token.MUL {
+			if p := placeOf(x); p != "" {
+				return atom("place:" + p)
+			}
+		}
+	case *ssa.Phi:
+		var early []int
+		var last ssa.Value
+		kind := -1
+		for k, e := range x.Edges {
+			if c, isC := e.(*ssa.Const); isC && c.Value != nil && c.Value.Kind() == constant.Bool {
+				vv := 0
+				if constant.BoolVal(c.Value) {
+					vv = 1
+				}
+				if kind != -1 && kind != vv {
+					return triUnknown
+				}
+				kind = vv
+				early = append(early, k)
+			} else if last == nil {
+				last = e
+			} else {
+				return triUnknown
+			}
+		}
+		if last == nil || kind == -1 {
+			return triUnknown
+		}
+		// || : true if any early operand is true, else the last; && : false if any early operand is false
+		res := boolValueUnder(last, atoms, asg, depth+1)
+		for _, k := range early {
+			p := x.Block().Preds[k]
+			ifi, ok := p.Instrs[len(p.Instrs)-1].(*ssa.If)
+			if !ok {
+				return triUnknown
+			}
+			op := boolValueUnder(ifi.Cond, atoms, asg, depth+1)
+			if kind == 1 { // ||
+				switch {
+				case op == triTrue || res == triTrue:
+					res = triTrue
+				case op == triUnknown || res == triUnknown:
+					res = triUnknown
+				default:
+					res = triFalse
+				}
+			} else { // &&
+				switch {
+				case op == triFalse || res == triFalse:
+					res = triFalse
+				case op == triUnknown || res == triUnknown:
+					res = triUnknown
+				default:
+					res = triTrue
+				}
+			}
+		}
+		return res
+	}
+	return triUnknown
+}
+
+func init() {
+	register(&Rule{
+		Name:   "LOCS-IMPLY-FREQNORM",
+		ZeroOK: true, // how the two flags are set is a matter of style (separate stores, a struct literal); the controls keep the matcher alive
+		Doc:    "the has-locations bit of a posting lives in the freq/norm stream: an iterator that is to deliver locations has to read freq/norm entries as well. Wherever the two decoder flags of an iterator are set together (two stores to the same object, or two fields of one struct literal), the freq/norm flag is true whenever the location flag is: checked by truth table over the boolean parameters and places the two stored values are built from (||, &&, ! in their value form)",
+		Run: func(c *Ctx, scope string, r *Report) {
+			c.deriveReaderFlags()
+			leaf := func(flag, dflt string) string {
+				s := readerFlagSuffix[flag]
+				if s == "" {
+					return dflt
+				}
+				return s[strings.LastIndex(s, ".")+1:]
+			}
+			fnLeaf, locLeaf := leaf("includeFreqNorm", "includeFreqNorm"), leaf("includeLocs", "includeLocs")
+			for _, fn := range c.srcFns {
+				type pair struct{ fnv, loc *ssa.Store }
+				byBase := map[ssa.Value]*pair{}
+				var order []ssa.Value
+				for _, b := range fn.Blocks {
+					for _, ins := range b.Instrs {
+						st, ok := ins.(*ssa.Store)
+						if !ok {
+							continue
+						}
+						fa, ok := st.Addr.(*ssa.FieldAddr)
+						if !ok {
+							continue
+						}
+						_, fv := fieldAddrInfo(fa)
+						if fv == nil || !isBoolType(fv.Type()) || (fv.Name() != fnLeaf && fv.Name() != locLeaf) {
+							continue
+						}
+						p := byBase[fa.X]
+						if p == nil {
+							p = &pair{}
+							byBase[fa.X] = p
+							order = append(order, fa.X)
+						}
+						if fv.Name() == fnLeaf {
+							p.fnv = st
+						} else {
+							p.loc = st
+						}
+					}
+				}
+				for _, base := range order {
+					p := byBase[base]
+					if p.fnv == nil || p.loc == nil {
+						continue
+					}
+					key := fnName(fn) + "/locs=>freqnorm"
+					atoms := map[string]int{}
+					// number the atoms first
+					boolValueUnder(p.fnv.Val, atoms, 0, 0)
+					boolValueUnder(p.loc.Val, atoms, 0, 0)
+					bad, unknown := "", false
+					for asg := uint(0); asg < 1<<uint(len(atoms)); asg++ {
+						l := boolValueUnder(p.loc.Val, atoms, asg, 0)
+						f := boolValueUnder(p.fnv.Val, atoms, asg, 0)
+						if l == triUnknown || f == triUnknown {
+							unknown = true
+							continue
+						}
+						if l == triTrue && f == triFalse {
+							var on []string
+							for name, i := range atoms {
+								if asg&(1<<uint(i)) != 0 {
+									on = append(on, name)
+								}
+							}
+							sort.Strings(on)
+							bad = strings.Join(on, ", ")
+						}
+					}
+					switch {
+					case bad != "":
+						r.bad(key, fnName(fn), c.pos(p.fnv.Pos()), "with {"+bad+"} set the iterator is told to deliver locations but not to read freq/norm entries: the has-locations bit is never read and no location is delivered")
+					case unknown:
+						r.undecided(key, fnName(fn), c.pos(p.fnv.Pos()), "cannot evaluate the two flag values")
+					default:
+						r.ok(key, fnName(fn), c.pos(p.fnv.Pos()), fmt.Sprintf("the freq/norm flag is true whenever the location flag is (%d assignments)", 1<<uint(len(atoms))))
+					}
+				}
+			}
+		},
+	})
 }
